@@ -14,6 +14,7 @@ import (
 	"sync/atomic"
 	"syscall"
 	"time"
+	"unsafe"
 
 	"github.com/bbockelm/cedar/client/sharedport"
 )
@@ -62,6 +63,7 @@ type fwd struct {
 	udsClosed atomic.Bool
 	refused   bool
 	passed    bool // a descriptor of peer went into the unix socket
+	started   bool // the handler is known to have started (it has read everything the daemon sent)
 }
 
 type accRec struct {
@@ -340,6 +342,23 @@ func (r *run) forward(ev Ev) error {
 	return nil
 }
 
+// consumed asks the kernel whether everything the daemon wrote has been read by the listener
+// (SIOCOUTQ on a unix socket: bytes not yet taken out of the peer's receive queue).
+func (f *fwd) consumed() bool {
+	rc, err := f.uds.SyscallConn()
+	if err != nil {
+		return false
+	}
+	left := int32(-1)
+	_ = rc.Control(func(fd uintptr) {
+		var v int32
+		if _, _, e := syscall.Syscall(syscall.SYS_IOCTL, fd, syscall.TIOCOUTQ, uintptr(unsafe.Pointer(&v))); e == 0 {
+			left = v
+		}
+	})
+	return left == 0
+}
+
 // udsEnded asks the kernel whether the listener has closed its end of the daemon connection
 // (= the handler is done).  A daemon that hung up itself cannot tell.
 func (f *fwd) udsEnded() bool {
@@ -418,28 +437,10 @@ func (r *run) identify(c net.Conn) (int, string) {
 // probe connection is refused (AdoptFD).  Close itself may go on waiting for handlers.
 func (r *run) closeCall(k int) {
 	r.ks[k-1].Store(1)
-	var before []*fwd // the daemon connections made before this Close call
-	for _, f := range r.fw {
-		if f != nil && !f.refused {
-			before = append(before, f)
-		}
-	}
 	r.wg.Add(1)
 	go func() {
 		defer r.wg.Done()
 		_ = r.l.Close()
-		// "waits for in-flight handler goroutines to finish before returning": at this very
-		// moment the listener has closed its end of every daemon connection
-		for _, f := range before {
-			if !f.udsEnded() {
-				r.logMu.Lock()
-				if r.closeViol == "" {
-					r.closeViol = fmt.Sprintf("Close call %d returned while the handler of d%d (%s) was still running (its daemon connection is still open)", k, f.ev.D, class(f.ev))
-				}
-				r.logMu.Unlock()
-				break
-			}
-		}
 		r.ks[k-1].Store(2)
 	}()
 	waitFor(r.must(), func() bool {
@@ -677,9 +678,23 @@ func RunListener(tmp string, e *Entry, nd, na, nk int, p Params) (*Obs, *Diff, e
 		return nil, nil, err
 	}
 	defer r.tcp.Close()
+	// Close "waits for in-flight handler goroutines to finish before returning.  The
+	// wait-for-handlers part exists because each handler may call l.logf as it returns":
+	// a log line after a Close call has returned comes from a handler that outlived it
 	opts := sharedport.Options{HandshakeTimeout: HandshakeTimeout, Logf: func(format string, a ...any) {
+		returned := 0
+		for i, k := range r.ks {
+			if k.Load() == 2 {
+				returned = i + 1
+				break
+			}
+		}
 		r.logMu.Lock()
-		r.logs = append(r.logs, fmt.Sprintf(format, a...))
+		line := fmt.Sprintf(format, a...)
+		r.logs = append(r.logs, line)
+		if returned > 0 && r.closeViol == "" {
+			r.closeViol = fmt.Sprintf("a handler logged %q after Close call %d had returned", line, returned)
+		}
 		r.logMu.Unlock()
 	}}
 	switch e.Origin {
@@ -787,6 +802,13 @@ func RunListener(tmp string, e *Entry, nd, na, nk int, p Params) (*Obs, *Diff, e
 			if err := r.forward(ev); err != nil {
 				return obs, nil, err
 			}
+			// a stalling daemon connection followed at once by Close: half of the time first make
+			// sure that the handler has started (it has read what was sent and waits for more), so
+			// that Close provably has a handler to wait for
+			if f := r.fw[ev.D-1]; ev.W && !f.refused && i+1 < len(e.Trace) && e.Trace[i+1].E == "close" && !e.Trace[i+1].Q &&
+				(ev.H == "trunc" || (ev.H == "good" && ev.F == "none")) && r.rng.Intn(2) == 0 {
+				f.started = waitFor(2*time.Second, f.consumed)
+			}
 		case "acc":
 			r.accept(ev.A)
 		case "close":
@@ -815,12 +837,7 @@ func RunListener(tmp string, e *Entry, nd, na, nk int, p Params) (*Obs, *Diff, e
 // after checks what the snapshots do not show, once the listener is closed and at rest.
 func (r *run) after(e *Entry, final Snap) *Diff {
 	ctxt := fmt.Sprintf("script %s; final [%s]; members: %s", Key(e.Origin, e.Trace), final.String(), strings.Join(r.members, "; "))
-	r.logMu.Lock()
-	cv := r.closeViol
-	r.logMu.Unlock()
-	if cv != "" {
-		return &Diff{Sig: sig("ClosedClean", "Close returns before the handlers are done"), Detail: cv + "; " + ctxt}
-	}
+
 	// Accept after Close: the error, promptly, every time
 	for i := 0; i < 2; i++ {
 		type ar struct {
@@ -891,5 +908,35 @@ func (r *run) after(e *Entry, final Snap) *Diff {
 			return &Diff{Sig: sig("NoLeak", "delivered connection"), Detail: fmt.Sprintf("after the application closed the connection of d%d its peer sees no end: another descriptor is still open; %s", d, ctxt)}
 		}
 	}
+	r.logMu.Lock()
+	cv := r.closeViol
+	r.logMu.Unlock()
+	if cv != "" {
+		// Was every handler that could log provably running (or finished) when Close was called?
+		// Then this is not the acceptLoop / Close race (LateHandler) but a Close that does not wait.
+		strict := true
+		rest := false
+		for i := len(e.Trace) - 1; i >= 0; i-- {
+			ev := e.Trace[i]
+			if ev.E == "close" && ev.K == 1 {
+				rest = ev.Q
+				for j := i - 1; j >= 0; j-- {
+					p := e.Trace[j]
+					if p.E == "fwd" && !rest && !(r.fw[p.D-1] != nil && r.fw[p.D-1].started) {
+						strict = false
+					}
+					rest = rest || p.Q
+				}
+				break
+			}
+		}
+		if strict {
+			return &Diff{Sig: sig("ClosedClean", "Close returns before a running handler is done"), Detail: cv + "; " + ctxt}
+		}
+		return &Diff{Sig: sig("ClosedClean", LateHandler), Detail: cv + "; " + ctxt}
+	}
 	return nil
 }
+
+// LateHandler is the `what` of the difference "a handler outlived Close" (see Stats.LateHandlers).
+const LateHandler = "a handler is still running after Close returned"
